@@ -52,7 +52,7 @@ func HarnessC14ImportPathStaysInRoot() {
 func HarnessC14ParsedImportsStayInRoot() {
 	maxN := 4
 	if verifrt.Thorough() {
-		maxN = 6
+		maxN = 5 // 6 exceeds the path cap
 	}
 	n := verifrt.Choose(maxN + 1)
 	s := verifrt.String(n)
